@@ -1,3 +1,495 @@
-(* placeholder: theorems follow *)
-From CC Require Import Model.Circuit.
-Example C09_model_runs : True. Proof. exact I. Qed.
+(* C09 — "For a circuit whose sources have different frequencies or are periodic, the analysed frequencies are exactly the
+   distinct source frequencies together with all harmonics k*w0 <= w_max (k = 0 included), each counted once; the spectral
+   line reported at each frequency equals the single-frequency peak phasor X_k of C02 at that frequency, and the time-domain
+   function equals sum_k |X_k|*cos(w_k*t + arg X_k).  Consequently the time functions obey Kirchhoff's current law at every
+   instant, equal the sum of the time functions obtained with each source alone, and reproduce a periodic source's own
+   waveform up to the truncation error of the retained harmonics."
+   Statements only; proofs are in Theory/MultiFreq.v.  Models: [frequency_components], [complex_solution] (Model/Circuit.v);
+   [fd_series], [td_value], [two_sided], [tf] (Theory/MultiFreq.v, spelled out below).
+   The last clause is stated relative to the source's harmonic data (section 4: the source's own voltage is the truncated
+   harmonic series); that these data are the Fourier coefficients of the named waveform is C08.  "Each counted once" holds
+   for EQUAL values only — see C09_each_once_refuted. *)
+From Coq Require Import List Bool ZArith NArith String Sorted QArith Qcanon.
+From CC Require Import Theory.Field Theory.Complex Theory.Labels Model.Network Theory.Spec Theory.Mna Theory.Tellegen
+  Theory.Ordered Theory.Linearity Model.Circuit Model.RunCircuit Theory.CircuitThm Theory.MultiFreq Properties.C07
+  Properties.C02.
+Import ListNotations.
+
+(* ====================================================================================================== *)
+(* 1. the analysed frequencies                                                                             *)
+(* ====================================================================================================== *)
+
+(* [leb_ok]: a total order (with Leibniz equality, which [feqb] decides);  [oleb_ok]: moreover compatible with + and * *)
+Theorem C09_leb_ok_unfolded : forall (R : fops) (leb : R -> R -> bool),
+  (leb_ok R leb <->
+     (forall x y : R, leb x y = true \/ leb y x = true)
+     /\ (forall x y z : R, leb x y = true -> leb y z = true -> leb x z = true)
+     /\ (forall x y : R, leb x y = true -> leb y x = true -> x = y))
+  /\ (oleb_ok R leb <->
+     leb_ok R leb
+     /\ (forall x y z : R, leb x y = true -> leb (fadd R x z) (fadd R y z) = true)
+     /\ (forall x y z : R, leb (f0 R) z = true -> leb x y = true -> leb (fmul R x z) (fmul R y z) = true)).
+Proof. intros R leb. split; (split; [intros [A B C]; auto|intros (A & B & C); constructor; assumption]). Qed.
+
+Theorem C09_Qc_leb_ok : leb_ok Qcops Qc_leb /\ oleb_ok Qcops Qc_leb
+  /\ (forall (x : Qc) (k : Z), (k <= Qc_floor x)%Z <-> Qc_leb (Qc_ofZ k) x = true).
+Proof. exact (conj Qc_leb_ok (conj Qc_oleb_ok Qc_floor_ok)). Qed.
+Print Assumptions C09_Qc_leb_ok.
+
+(* the list is strictly increasing (sorted, every entry once) and lists exactly what the components contribute *)
+Theorem C09_list : forall (R : fops) (ROK : fops_ok R) (leb : R -> R -> bool) (LOK : leb_ok R leb) (ofZ : Z -> R)
+  (flr : R -> Z) (cs : list (comp R)) (wmax : R) (l : list R),
+  frequency_components R leb ofZ flr cs wmax = Ok l ->
+  StronglySorted (fun x y => leb x y = true /\ x <> y) l
+  /\ NoDup l
+  /\ (forall w, In w l <-> exists c ws, In c cs /\ comp_frequencies R ofZ flr c wmax = Ok ws /\ In w ws).
+Proof. exact freq_list_pack. Qed.
+Print Assumptions C09_list.
+
+(* ... which determines it: any strictly increasing list with the same members is that list *)
+Theorem C09_list_unique : forall (R : fops) (ROK : fops_ok R) (leb : R -> R -> bool) (LOK : leb_ok R leb) (ofZ : Z -> R)
+  (flr : R -> Z) (cs : list (comp R)) (wmax : R) (l l' : list R),
+  frequency_components R leb ofZ flr cs wmax = Ok l ->
+  StronglySorted (fun x y => leb x y = true /\ x <> y) l' ->
+  (forall w, In w l' <-> exists c ws, In c cs /\ comp_frequencies R ofZ flr c wmax = Ok ws /\ In w ws) ->
+  l' = l.
+Proof. exact freq_list_unique. Qed.
+Print Assumptions C09_list_unique.
+
+(* it is defined whenever every component's contribution is (i.e. unless a periodic source has w = 0) *)
+Theorem C09_list_defined : forall (R : fops) (leb : R -> R -> bool) (ofZ : Z -> R) (flr : R -> Z) (cs : list (comp R)) (wmax : R),
+  (forall c, In c cs -> exists ws, comp_frequencies R ofZ flr c wmax = Ok ws) ->
+  exists l, frequency_components R leb ofZ flr cs wmax = Ok l.
+Proof. exact freq_list_total. Qed.
+
+(* what one component contributes: nothing without a 'w' entry; [w] for a non-periodic one; for a periodic one the
+   multiples w0*k, 0 <= k <= floor(wmax/w0), in that order (ZeroDivisionError when w0 = 0) *)
+Theorem C09_member_sources : forall (R : fops) (ROK : fops_ok R) (ofZ : Z -> R) (flr : R -> Z) (c : comp R) (wmax : R),
+  (vlook R (cvals c) (lbl "w") = None -> comp_frequencies R ofZ flr c wmax = Ok [])
+  /\ (forall w, vlook R (cvals c) (lbl "w") = Some w -> is_periodic R c = false ->
+        comp_frequencies R ofZ flr c wmax = Ok [w])
+  /\ (forall w0, vlook R (cvals c) (lbl "w") = Some w0 -> is_periodic R c = true -> w0 <> f0 R ->
+        exists ws, comp_frequencies R ofZ flr c wmax = Ok ws
+          /\ ws = map (fun k => fmul R w0 (ofZ (Z.of_nat k))) (seq O (Z.to_nat (flr (fdiv R wmax w0) + 1)))
+          /\ (forall w, In w ws <-> exists k : Z, (0 <= k <= flr (fdiv R wmax w0))%Z /\ w = fmul R w0 (ofZ k)))
+  /\ (vlook R (cvals c) (lbl "w") = Some (f0 R) -> is_periodic R c = true ->
+        comp_frequencies R ofZ flr c wmax = Err EZeroDivision).
+Proof. exact member_sources_pack. Qed.
+Print Assumptions C09_member_sources.
+
+Theorem C09_is_periodic : forall (R : fops) (c : comp R), is_periodic R c = true <-> ck c = KPerV \/ ck c = KPerI.
+Proof. exact is_periodic_iff. Qed.
+
+(* with an ordered field and [flr] the floor function, a periodic source with w0 > 0 contributes exactly the harmonics
+   k*w0 <= wmax, k = 0 included *)
+Theorem C09_member_harmonics : forall (R : fops) (ROK : fops_ok R) (leb : R -> R -> bool) (OOK : oleb_ok R leb)
+  (ofZ : Z -> R) (flr : R -> Z) (c : comp R) (wmax w0 : R),
+  (forall (x : R) (k : Z), (k <= flr x)%Z <-> leb (ofZ k) x = true) ->
+  vlook R (cvals c) (lbl "w") = Some w0 -> is_periodic R c = true -> leb w0 (f0 R) = false ->
+  exists ws, comp_frequencies R ofZ flr c wmax = Ok ws
+    /\ forall w, In w ws <-> exists k : Z, (0 <= k)%Z /\ w = fmul R w0 (ofZ k) /\ leb w wmax = true.
+Proof. intros R ROK leb OOK ofZ flr. exact (cf_periodic_floor R ROK leb (oleb_order R leb OOK) ofZ flr OOK). Qed.
+Print Assumptions C09_member_harmonics.
+
+(* The stronger reading of "each counted once" — no two listed frequencies within the frequency resolution of one another
+   ([off_frequency a b wres]: |a - b| > wres, the translators' test for "a source at another frequency") — is FALSE:
+   values are merged when equal, not when close.  Two sources half a resolution apart are listed twice, and at either
+   listed frequency both are translated as active (C09_example_near_double_count below). *)
+Definition C09_each_once_within_resolution_full : Prop :=
+  forall (R : fops) (ROK : fops_ok R) (leb : R -> R -> bool) (OOK : oleb_ok R leb) (ofZ : Z -> R) (flr : R -> Z)
+         (cs : list (comp R)) (wmax wres : R) (l : list R),
+    leb wres (f0 R) = false ->
+    frequency_components R leb ofZ flr cs wmax = Ok l ->
+    forall a b, In a l -> In b l -> a <> b -> off_frequency R leb a b wres = true.
+
+Theorem C09_each_once_refuted : ~ C09_each_once_within_resolution_full.
+Proof. exact each_once_refuted. Qed.
+Print Assumptions C09_each_once_refuted.
+
+(* ====================================================================================================== *)
+(* 2. the time functions                                                                                   *)
+(* ====================================================================================================== *)
+
+(* the model of  sum_k |X_k| cos(w_k t + arg X_k)  at one instant; (c_k, s_k) = (cos (w_k t), sin (w_k t)) *)
+Theorem C09_tf_unfolded : forall (R : fops) (cst : list (R * R)) (X : list (Cx R)),
+  tf cst X = sumF (fun p => fsub R (fmul R (re (snd p)) (fst (fst p))) (fmul R (im (snd p)) (snd (fst p)))) (combine cst X).
+Proof. reflexivity. Qed.
+
+(* |X| cos(wt + arg X), with X = r (ca + j sa), is Re X cos wt - Im X sin wt *)
+Theorem C09_polar : forall (R : fops) (ROK : fops_ok R) (r ca sa c s : R) (X : Cx R),
+  X = (fmul R r ca, fmul R r sa) ->
+  fmul R r (fsub R (fmul R c ca) (fmul R s sa)) = fsub R (fmul R (re X) c) (fmul R (im X) s).
+Proof. exact tf_polar. Qed.
+Print Assumptions C09_polar.
+
+(* ... which is Re (X * exp(j w t)) *)
+Theorem C09_term_re_mul : forall (R : fops) (c s : R) (X : Cx R),
+  fsub R (fmul R (re X) c) (fmul R (im X) s) = re (fmul (Cx R) X (c, s)).
+Proof. exact tf_term_re_mul. Qed.
+
+(* additive and homogeneous in the phasor list, position by position *)
+Theorem C09_linear : forall (R : fops) (ROK : fops_ok R) (cst : list (R * R)),
+  (forall X Y : list (Cx R), List.length X = List.length Y ->
+     tf cst (map (fun p => fadd (Cx R) (fst p) (snd p)) (combine X Y)) = fadd R (tf cst X) (tf cst Y))
+  /\ (forall (a : R) (X : list (Cx R)), tf cst (map (fun x => fmul (Cx R) (a, f0 R) x) X) = fmul R a (tf cst X)).
+Proof. exact tf_linear_pack. Qed.
+Print Assumptions C09_linear.
+
+(* KCL at every instant: if at every analysed frequency k the flows J k (indexed by branch id) obey KCL on the branch
+   list [bs], so do the time functions  i_b = tf cst [J k (bid b)]_k  — for every choice of the carrier values [cst] *)
+Theorem C09_kcl_t : forall (R : fops) (ROK : fops_ok R) (H : Type) (bs : list (branch (Cx R))) (ks : list H)
+  (J : H -> label -> Cx R) (cst : list (R * R)),
+  (forall k, In k ks -> forall node, kcl_sum bs (fun b => J k (bid b)) node = f0 (Cx R)) ->
+  forall node,
+    sumF (fun b => fsub R (if label_eqb (node1 b) node then tf cst (map (fun k => J k (bid b)) ks) else f0 R)
+                          (if label_eqb (node2 b) node then tf cst (map (fun k => J k (bid b)) ks) else f0 R)) bs = f0 R.
+Proof. exact tf_kcl_branches. Qed.
+Print Assumptions C09_kcl_t.
+
+(* the branch lists produced at different frequencies differ in their elements only: KCL transfers between them *)
+Theorem C09_kcl_same_structure : forall (K : fops) (bs bs' : list (branch K)) (ji : label -> K) (node : label),
+  map (fun b => (node1 b, node2 b, bid b)) bs = map (fun b => (node1 b, node2 b, bid b)) bs' ->
+  kcl_sum bs (fun b => ji (bid b)) node = kcl_sum bs' (fun b => ji (bid b)) node.
+Proof. exact kcl_topo. Qed.
+
+(* on the circuit itself: the phasor equations (C02) at every analysed frequency give KCL of the time functions over
+   the non-ground components (flow of component [cid c] from its first to its second terminal) *)
+Theorem C09_kcl_t_circuit : forall (R : fops) (ROK : fops_ok R) leb rnd ofZ (H : Type) (cs : list (comp R)) (wres : R)
+  (ks : list H) (wk : H -> R) (Phi J : H -> label -> Cx R) (cst : list (R * R)),
+  (forall k, In k ks -> PhasorSpec R leb rnd ofZ cs (wk k) wres (Phi k) (J k)) ->
+  forall node,
+    sumF (fun c => fsub R (if label_eqb (nth 0 (cnodes c) []) node then tf cst (map (fun k => J k (cid c)) ks) else f0 R)
+                          (if label_eqb (nth 1 (cnodes c) []) node then tf cst (map (fun k => J k (cid c)) ks) else f0 R))
+         (filter (fun c => has_translator (ck c)) cs) = f0 R.
+Proof. exact tf_kcl_circuit. Qed.
+Print Assumptions C09_kcl_t_circuit.
+
+(* ... in particular for the solutions the frequency-domain analysis computes ([fd_solutions], below): the flows read off
+   the solution vectors, combined into time functions, obey KCL at every instant *)
+Theorem C09_kcl_t_solutions : forall (R : fops) (ROK : fops_ok R) leb rnd ofZ flr
+  (Rreal : forall x y : R, fadd R (fmul R x x) (fmul R y y) = f0 R -> x = f0 R /\ y = f0 R)
+  (cs : list (comp R)) (wmax wres : R) (sols : list (R * csol R)),
+  fd_solutions R leb rnd ofZ flr cs wmax wres = Ok sols ->
+  (forall c, In c cs -> ck c <> KGround -> nth 0 (cnodes c) [] <> nth 1 (cnodes c) []) ->
+  (forall k, In k sols ->
+     PhasorSpec R leb rnd ofZ cs (fst k) wres
+       (phi_of (s_net (cs_sol (snd k))) (s_x (cs_sol (snd k))))
+       (flow_by_id R (s_net (cs_sol (snd k))) (s_x (cs_sol (snd k)))))
+  /\ forall (cst : list (R * R)) node,
+    let i_t := fun c : comp R =>
+      tf cst (map (fun k : R * csol R => flow_by_id R (s_net (cs_sol (snd k))) (s_x (cs_sol (snd k))) (cid c)) sols) in
+    sumF (fun c => fsub R (if label_eqb (nth 0 (cnodes c) []) node then i_t c else f0 R)
+                          (if label_eqb (nth 1 (cnodes c) []) node then i_t c else f0 R))
+         (filter (fun c => has_translator (ck c)) cs) = f0 R.
+Proof. intros R ROK leb rnd ofZ flr Rreal cs wmax wres sols H D. split.
+  - exact (fd_solutions_phasor R ROK leb rnd ofZ flr Rreal cs wmax wres sols H D).
+  - exact (fd_kcl_t R ROK leb rnd ofZ flr Rreal cs wmax wres sols H D). Qed.
+Print Assumptions C09_kcl_t_solutions.
+
+(* superposition: if, frequency by frequency, the phasor of the full circuit is the sum over the sources [srcs] of the
+   phasors with each source alone (C04_superpose_blocks / C04_spec_add give this at each frequency), the time function is
+   the sum of the single-source time functions *)
+Theorem C09_superpose_t : forall (R : fops) (ROK : fops_ok R) (H S : Type) (cst : list (R * R)) (ks : list H)
+  (srcs : list S) (X : H -> Cx R) (Xs : S -> H -> Cx R),
+  (forall k, In k ks -> X k = sumF (K:=Cx R) (fun s => Xs s k) srcs) ->
+  tf cst (map X ks) = sumF (fun s => tf cst (map (Xs s) ks)) srcs.
+Proof. exact tf_superpose. Qed.
+Print Assumptions C09_superpose_t.
+
+(* the same for phasor lists, position by position *)
+Theorem C09_superpose_t_lists : forall (R : fops) (ROK : fops_ok R) (S : Type) (cst : list (R * R)) (srcs : list S)
+  (X : list (Cx R)) (Xs : S -> list (Cx R)),
+  (forall s, In s srcs -> List.length (Xs s) = List.length X) ->
+  (forall k, (k < List.length X)%nat -> nth k X (f0 (Cx R)) = sumF (K:=Cx R) (fun s => nth k (Xs s) (f0 (Cx R))) srcs) ->
+  tf cst X = sumF (fun s => tf cst (Xs s)) srcs.
+Proof. exact tf_superpose_lists. Qed.
+Print Assumptions C09_superpose_t_lists.
+
+(* with the source split of C04 at every frequency: the sums solve the full networks, and their time functions
+   (potentials and flows) are the sums of the two partial time functions *)
+Theorem C09_superpose_t_spec : forall (R : fops) (ROK : fops_ok R)
+  (Rreal : forall x y : R, fadd R (fmul R x x) (fmul R y y) = f0 R -> x = f0 R /\ y = f0 R)
+  (H : Type) (ks : list H) (n n1 n2 : H -> network (Cx R)) (phi1 j1 phi2 j2 : H -> label -> Cx R) (cst : list (R * R)),
+  (forall k, In k ks -> src_sum (n k) (n1 k) (n2 k)
+                        /\ CircuitSpecId (n1 k) (phi1 k) (j1 k) /\ CircuitSpecId (n2 k) (phi2 k) (j2 k)) ->
+  (forall k, In k ks ->
+     CircuitSpecId (n k) (fun l => fadd (Cx R) (phi1 k l) (phi2 k l)) (fun i => fadd (Cx R) (j1 k i) (j2 k i)))
+  /\ (forall l, tf cst (map (fun k => fadd (Cx R) (phi1 k l) (phi2 k l)) ks)
+                = fadd R (tf cst (map (fun k => phi1 k l) ks)) (tf cst (map (fun k => phi2 k l) ks)))
+  /\ (forall i, tf cst (map (fun k => fadd (Cx R) (j1 k i) (j2 k i)) ks)
+                = fadd R (tf cst (map (fun k => j1 k i) ks)) (tf cst (map (fun k => j2 k i) ks))).
+Proof. exact tf_superpose_spec. Qed.
+Print Assumptions C09_superpose_t_spec.
+
+(* ====================================================================================================== *)
+(* 3. spectral lines                                                                                       *)
+(* ====================================================================================================== *)
+
+(* FrequencyDomainSolution: one peak-value ComplexSolution per analysed frequency; a series pairs every frequency with
+   the quantity [obs] read from its solution; TimeDomainSolution evaluates tf on the same lines *)
+Theorem C09_fd_unfolded : forall (R : fops) leb rnd ofZ flr (sqrt2 : R) (obs : csol R -> res (Cx R)) (cs : list (comp R))
+  (wmax wres : R) (id : label) (carrier : R -> R * R),
+  fd_solutions R leb rnd ofZ flr cs wmax wres
+  = bind (frequency_components R leb ofZ flr cs wmax)
+      (fun l => mapM (fun w => bind (complex_solution R leb rnd ofZ cs w wres true) (fun s => Ok (w, s))) l)
+  /\ fd_series R leb rnd ofZ flr obs cs wmax wres
+     = bind (fd_solutions R leb rnd ofZ flr cs wmax wres)
+         (fun sols => mapM (fun p => bind (obs (snd p)) (fun x => Ok (fst p, x))) sols)
+  /\ fd_voltage R leb rnd ofZ flr sqrt2 id cs wmax wres
+     = fd_series R leb rnd ofZ flr (fun s => c_voltage R sqrt2 s id) cs wmax wres
+  /\ fd_current R leb rnd ofZ flr sqrt2 id cs wmax wres
+     = fd_series R leb rnd ofZ flr (fun s => c_current R sqrt2 s id) cs wmax wres
+  /\ fd_potential R leb rnd ofZ flr sqrt2 id cs wmax wres
+     = fd_series R leb rnd ofZ flr (fun s => c_potential R sqrt2 s id) cs wmax wres
+  /\ td_value R leb rnd ofZ flr obs cs wmax wres carrier
+     = bind (fd_series R leb rnd ofZ flr obs cs wmax wres)
+         (fun lines => Ok (tf (map (fun p => carrier (fst p)) lines) (map snd lines))).
+Proof. intros. repeat split. Qed.
+
+(* the k-th line: its frequency is the k-th analysed frequency, its value the quantity read from the single-frequency
+   peak solution of C02 at that frequency *)
+Theorem C09_line : forall (R : fops) leb rnd ofZ flr (obs : csol R -> res (Cx R)) (cs : list (comp R)) (wmax wres : R)
+  (lines : list (R * Cx R)),
+  fd_series R leb rnd ofZ flr obs cs wmax wres = Ok lines ->
+  frequency_components R leb ofZ flr cs wmax = Ok (map fst lines)
+  /\ Forall (fun p => exists s, complex_solution R leb rnd ofZ cs (fst p) wres true = Ok s /\ obs s = Ok (snd p)) lines.
+Proof. exact fd_line. Qed.
+Print Assumptions C09_line.
+
+(* these are peak solutions: the accessors hand out the solver's phasors unscaled (what C02_reported describes) *)
+Theorem C09_line_peak : forall (R : fops) leb rnd ofZ (sqrt2 : R) (cs : list (comp R)) (w wres : R) (s : csol R),
+  complex_solution R leb rnd ofZ cs w wres true = Ok s ->
+  cs_peak s = true
+  /\ (forall id, c_voltage R sqrt2 s id = get_voltage (cs_sol s) id)
+  /\ (forall id, c_current R sqrt2 s id = get_current (cs_sol s) id)
+  /\ (forall l, c_potential R sqrt2 s l = get_potential (cs_sol s) l).
+Proof. intros R leb rnd ofZ sqrt2 cs w wres s H. pose proof (complex_solution_peak R leb rnd ofZ cs w wres s H) as P.
+  split; [exact P|exact (peak_accessors R sqrt2 s P)]. Qed.
+
+(* the time-domain value is the sum over the lines of Re X_k cos(w_k t) - Im X_k sin(w_k t) *)
+Theorem C09_td : forall (R : fops) leb rnd ofZ flr (obs : csol R -> res (Cx R)) (cs : list (comp R)) (wmax wres : R)
+  (carrier : R -> R * R) (v : R),
+  td_value R leb rnd ofZ flr obs cs wmax wres carrier = Ok v ->
+  exists lines, fd_series R leb rnd ofZ flr obs cs wmax wres = Ok lines
+    /\ v = sumF (fun p => fsub R (fmul R (re (snd p)) (fst (carrier (fst p)))) (fmul R (im (snd p)) (snd (carrier (fst p))))) lines.
+Proof. exact td_value_ok. Qed.
+Print Assumptions C09_td.
+
+(* the two-sided spectrum: for every w_k > 0 the lines (-w_k, conj X_k / 2) and (w_k, X_k / 2), the others unchanged;
+   frequency axis  -w[positive] reversed ++ w,  values  conj(X[positive] reversed)/2 ++ where(positive, X/2, X) *)
+Theorem C09_two_sided_unfolded : forall (R : fops) (leb : R -> R -> bool) (l : list (R * Cx R)),
+  let pos := fun w : R => negb (leb w (f0 R)) in
+  let half := fun x : Cx R => fdiv (Cx R) x (fadd R (f1 R) (f1 R), f0 R) in
+  map fst (two_sided leb l) = map (fopp R) (rev (filter pos (map fst l))) ++ map fst l
+  /\ map snd (two_sided leb l)
+     = map (fun x => half (fconj (Cx R) x)) (rev (map snd (filter (fun p => pos (fst p)) l)))
+       ++ map (fun p => if pos (fst p) then half (snd p) else snd p) l.
+Proof. intros R leb l. split; [exact (two_sided_w R leb l)|exact (two_sided_values R leb l)]. Qed.
+
+(* a mirrored pair carries the real signal of the one-sided line; the whole two-sided sum  sum Y_k exp(j w_k t)  has the
+   real part  sum_k Re (X_k exp(j w_k t))  of the one-sided lines, and its imaginary part consists of the contributions
+   of the lines at w <= 0 only (the DC line: zero when that line is real) *)
+Theorem C09_two_sided_real : forall (R : fops) (ROK : fops_ok R) (leb : R -> R -> bool),
+  fadd R (f1 R) (f1 R) <> f0 R ->
+  (forall X e : Cx R,
+     fadd R (re (fmul (Cx R) (chalf X) e)) (re (fmul (Cx R) (chalf (fconj (Cx R) X)) (fconj (Cx R) e)))
+     = re (fmul (Cx R) X e))
+  /\ (forall (E : R -> Cx R) (l : list (R * Cx R)), (forall w, E (fopp R w) = fconj (Cx R) (E w)) ->
+        re (sumF (K:=Cx R) (fun p => fmul (Cx R) (snd p) (E (fst p))) (two_sided leb l))
+        = sumF (fun p => re (fmul (Cx R) (snd p) (E (fst p)))) l
+        /\ im (sumF (K:=Cx R) (fun p => fmul (Cx R) (snd p) (E (fst p))) (two_sided leb l))
+           = sumF (fun p => if negb (leb (fst p) (f0 R)) then f0 R else im (fmul (Cx R) (snd p) (E (fst p)))) l).
+Proof. exact two_sided_real_pack. Qed.
+Print Assumptions C09_two_sided_real.
+
+(* hence the time function of the one-sided lines is the real part of the two-sided sum *)
+Theorem C09_two_sided_time : forall (R : fops) (ROK : fops_ok R) (leb : R -> R -> bool),
+  fadd R (f1 R) (f1 R) <> f0 R ->
+  forall (carrier : R -> R * R) (l : list (R * Cx R)),
+  (forall w, carrier (fopp R w) = (fst (carrier w), fopp R (snd (carrier w)))) ->
+  tf (map (fun p => carrier (fst p)) l) (map snd l)
+  = re (sumF (K:=Cx R) (fun p => fmul (Cx R) (snd p) (carrier (fst p))) (two_sided leb l)).
+Proof. exact two_sided_time. Qed.
+Print Assumptions C09_two_sided_time.
+
+(* the mirrored frequency axis is strictly increasing when the analysed frequencies are and none is negative *)
+Theorem C09_two_sided_ascending : forall (R : fops) (ROK : fops_ok R) (leb : R -> R -> bool) (OOK : oleb_ok R leb)
+  (l : list (R * Cx R)),
+  StronglySorted (fun x y => leb x y = true /\ x <> y) (map fst l) ->
+  (forall w, In w (map fst l) -> leb (f0 R) w = true) ->
+  StronglySorted (fun x y => leb x y = true /\ x <> y) (map fst (two_sided leb l)).
+Proof. exact two_sided_increasing. Qed.
+Print Assumptions C09_two_sided_ascending.
+
+(* ====================================================================================================== *)
+(* 4. a periodic source's own waveform                                                                     *)
+(* ====================================================================================================== *)
+(* An ideal periodic voltage source (R = 0): at the frequency w_n of its n-th retained harmonic (n = round(w_n/w0),
+   |w_n/w0 - n| <= wres/w0, harmonic data a_n, (cos p_n, sin p_n)) every phasor solution has the voltage a_n exp(j p_n)
+   across it, so the time function of that voltage is  sum_n a_n cos(w_n t + p_n)  over the retained harmonics: the
+   truncated harmonic series of the waveform.  (That a_n, p_n are the Fourier coefficients of the named waveform, and the
+   size of the truncation error, belong to C08.) *)
+Theorem C09_periodic_own_waveform : forall (R : fops) (ROK : fops_ok R) leb rnd ofZ (cs : list (comp R)) (c : comp R)
+  (w0 wres : R) (ks : list Z) (wk : Z -> R) (Phi J : Z -> label -> Cx R) (harm : Z -> R * (R * R)) (cst : list (R * R)),
+  In c cs -> ck c = KPerV ->
+  vlook R (cvals c) (lbl "w") = Some w0 -> vlook R (cvals c) (lbl "R") = Some (f0 R) ->
+  (forall n, In n ks ->
+     PhasorSpec R leb rnd ofZ cs (wk n) wres (Phi n) (J n)
+     /\ rnd (fdiv R (wk n) w0) = n
+     /\ leb (rabs R leb (fsub R (fdiv R (wk n) w0) (ofZ n))) (fdiv R wres w0) <> false
+     /\ hlook R (charm c) n = Some (harm n)) ->
+  tf cst (map (fun n => fsub (Cx R) (Phi n (nth 0 (cnodes c) [])) (Phi n (nth 1 (cnodes c) []))) ks)
+  = sumF (fun p => fmul R (fst (harm (snd p)))
+                     (fsub R (fmul R (fst (fst p)) (fst (snd (harm (snd p))))) (fmul R (snd (fst p)) (snd (snd (harm (snd p)))))))
+         (combine cst ks).
+Proof. exact periodic_own_waveform. Qed.
+Print Assumptions C09_periodic_own_waveform.
+
+(* ====================================================================================================== *)
+(* non-vacuity: concrete circuits over the rationals                                                       *)
+(* ====================================================================================================== *)
+(* a lossy dc voltage source (w = 0), an ac current source at w = 2, a periodic current source with w0 = 1 whose harmonics
+   0..3 are retained for w_max = 7/2, an R-C-R network, ground listed last *)
+Definition ex9_harm (a0 a1 a2 a3 : Qc) : list (Z * (Qc * (Qc * Qc))) :=
+  [(0%Z, (a0, (q 1 1, q 0 1))); (1%Z, (a1, (q 0 1, q 1 1))); (2%Z, (a2, (q 3 5, q 4 5))); (3%Z, (a3, (q 1 1, q 0 1)))].
+Definition ex9_gen (v0 i2 : Qc) (harm : list (Z * (Qc * (Qc * Qc)))) : list qcomp := [
+  mkc KDcV "V0" ["1"; "0"] [("V", v0); ("R", q 1 1); ("w", q 0 1); ("phi", q 0 1)];
+  mkc KResistor "R1" ["1"; "2"] [("R", q 2 1)];
+  mkc KCapacitor "C1" ["2"; "0"] [("C", q 1 4)];
+  mkc KAcI "I2" ["0"; "2"] [("I", i2); ("G", q 0 1); ("w", q 2 1); ("phi", q 1 1)];
+  mkp KPerI "P1" ["0"; "2"] [("wavetype", q 0 1); ("I", q 1 1); ("w", q 1 1); ("phi", q 0 1); ("G", q 1 10)] harm;
+  mkc KResistor "R2" ["2"; "0"] [("R", q 5 1)];
+  mkc KGround "gnd" ["0"] [] ]%string.
+Definition ex9_cs : list qcomp := ex9_gen (q 3 1) (q 1 1) (ex9_harm (q 1 2) (q 2 3) (q 1 3) (q 1 5)).
+Definition ex9_wmax : Qc := q 7 2.
+Definition ex9_wres : Qc := q 1 1000.
+Definition ex9_ws : list Qc := [q 0 1; q 1 1; q 2 1; q 3 1].
+
+Definition q_freqs := frequency_components Qcops Qc_leb Qc_ofZ Qc_floor.
+Definition q_fd_solutions := fd_solutions Qcops Qc_leb Qc_round Qc_ofZ Qc_floor.
+Definition q_fd_voltage := fd_voltage Qcops Qc_leb Qc_round Qc_ofZ Qc_floor ex_sqrt2.
+Definition q_fd_current := fd_current Qcops Qc_leb Qc_round Qc_ofZ Qc_floor ex_sqrt2.
+
+(* 0 (dc source and k = 0), 1, 2 (ac source and k = 2), 3: each once *)
+Example C09_example_list : okb (q_freqs ex9_cs ex9_wmax) (fun l => qlist_eqb l ex9_ws) = true.
+Proof. vm_compute. reflexivity. Qed.
+Example C09_example_list' : q_freqs ex9_cs ex9_wmax = Ok ex9_ws.
+Proof. destruct (okb_ex _ _ C09_example_list) as [l [H E]]. apply qlist_eqb_ok in E. rewrite <- E. exact H. Qed.
+
+(* the periodic source meets the hypotheses of C09_member_harmonics and contributes the four harmonics; the ac source one
+   frequency; a resistor none *)
+Example C09_example_members :
+  okb (comp_frequencies Qcops Qc_ofZ Qc_floor (nth 4 ex9_cs (mkc KShort "" [] [])) ex9_wmax) (fun l => qlist_eqb l ex9_ws)
+  && is_periodic Qcops (nth 4 ex9_cs (mkc KShort "" [] []))
+  && match vlook Qcops (cvals (nth 4 ex9_cs (mkc KShort "" [] []))) (lbl "w") with
+     | Some w0 => negb (Qc_leb w0 0) | None => false end
+  && okb (comp_frequencies Qcops Qc_ofZ Qc_floor (nth 3 ex9_cs (mkc KShort "" [] [])) ex9_wmax) (fun l => qlist_eqb l [q 2 1])
+  && negb (is_periodic Qcops (nth 3 ex9_cs (mkc KShort "" [] [])))
+  && okb (comp_frequencies Qcops Qc_ofZ Qc_floor (nth 1 ex9_cs (mkc KShort "" [] [])) ex9_wmax) (fun l => qlist_eqb l [])
+  = true.
+Proof. vm_compute. reflexivity. Qed.
+
+(* the two sources half a resolution apart (Theory/MultiFreq.v, near_cs: V1 at 2, V2 at 2 + 1/2000 in series on R1) are
+   listed twice, and at BOTH listed frequencies the line of R1 carries both sources (2 V instead of 1 V): the time
+   function counts each source twice *)
+Example C09_example_near_listed_twice :
+  okb (q_freqs near_cs (q 10 1)) (fun l => qlist_eqb l [near_w1; near_w2])
+  && negb (off_frequency Qcops Qc_leb near_w1 near_w2 near_wres) = true.
+Proof. vm_compute. reflexivity. Qed.
+Example C09_example_near_double_count :
+  okb (q_fd_voltage (lbl "R1") near_cs (q 10 1) near_wres)
+      (fun lines => qlist_eqb (map fst lines) [near_w1; near_w2]
+                    && forallb (fun p => feqb CQ (snd p) (cq 2 1 0 1)) lines) = true.
+Proof. vm_compute. reflexivity. Qed.
+
+(* the frequency-domain analysis of ex9_cs succeeds: four solutions, four non-zero voltage lines across R2 at 0, 1, 2, 3 *)
+Example C09_example_distinct : distinct_terminalsb Qcops ex9_cs = true.
+Proof. vm_compute. reflexivity. Qed.
+Example C09_example_fd_solutions :
+  okb (q_fd_solutions ex9_cs ex9_wmax ex9_wres) (fun sols => qlist_eqb (map fst sols) ex9_ws) = true.
+Proof. vm_compute. reflexivity. Qed.
+Example C09_example_fd_voltage :
+  okb (q_fd_voltage (lbl "R2") ex9_cs ex9_wmax ex9_wres)
+      (fun lines => qlist_eqb (map fst lines) ex9_ws && forallb (fun p => negb (feqb CQ (snd p) (f0 CQ))) lines) = true.
+Proof. vm_compute. reflexivity. Qed.
+(* hypotheses of C09_kcl_t_circuit / C09_kcl_t_solutions: phasor solutions at all four frequencies *)
+Example C09_example_phasors : exists sols, q_fd_solutions ex9_cs ex9_wmax ex9_wres = Ok sols /\ map fst sols = ex9_ws
+  /\ forall k, In k sols ->
+       PhasorSpec Qcops Qc_leb Qc_round Qc_ofZ ex9_cs (fst k) ex9_wres
+         (phi_of (s_net (cs_sol (snd k))) (s_x (cs_sol (snd k))))
+         (flow_by_id Qcops (s_net (cs_sol (snd k))) (s_x (cs_sol (snd k)))).
+Proof. destruct (okb_ex _ _ C09_example_fd_solutions) as [sols [H E]]. apply qlist_eqb_ok in E. exists sols.
+  split; [exact H|]. split; [exact E|].
+  exact (proj1 (C09_kcl_t_solutions Qcops Qcops_ok Qc_leb Qc_round Qc_ofZ Qc_floor Qc_real ex9_cs ex9_wmax ex9_wres sols H
+                  (distinct_terminalsb_ok _ _ C09_example_distinct))). Qed.
+
+(* the time function at an instant where (cos w t, sin w t) = (3/5, 4/5) for w > 0, (1, 0) for w = 0: the currents of
+   R1 (into node 2), C1, R2 (out of node 2) and of the sources I2, P1 (terminals 0 -> 2) balance at node 2; P1 is a lossy
+   source (G = 1/10), whose reported current is the flow reversed (C02_reported) *)
+Definition ex9_carrier (w : Qc) : Qc * Qc :=
+  if Qc_eq_bool w 0 then (q 1 1, q 0 1) else if Qc_leb w 0 then (q 3 5, q (-4) 5) else (q 3 5, q 4 5).
+Definition q_td_current id := td_value Qcops Qc_leb Qc_round Qc_ofZ Qc_floor (fun s => c_current Qcops ex_sqrt2 s id)
+  ex9_cs ex9_wmax ex9_wres ex9_carrier.
+Example C09_example_td_kcl :
+  okb (q_td_current (lbl "R1")) (fun i1 => okb (q_td_current (lbl "C1")) (fun ic => okb (q_td_current (lbl "R2")) (fun i2 =>
+  okb (q_td_current (lbl "I2")) (fun js => okb (q_td_current (lbl "P1")) (fun jp =>
+    negb (Qc_eq_bool i1 0) && negb (Qc_eq_bool ic 0) && negb (Qc_eq_bool js 0) && negb (Qc_eq_bool jp 0)
+    && Qc_eq_bool (i1 + js - jp) (ic + i2)))))) = true.
+Proof. vm_compute. reflexivity. Qed.
+
+(* superposition, checked on the lines: ex9_cs = (dc + periodic source alone) + (ac source alone), the switched-off
+   sources keeping their internal resistance / conductance; the voltage lines of R2 add up at every frequency, hence
+   (C09_superpose_t) so do the time functions *)
+Definition ex9_A : list qcomp := ex9_gen (q 3 1) (q 0 1) (ex9_harm (q 1 2) (q 2 3) (q 1 3) (q 1 5)).
+Definition ex9_B : list qcomp := ex9_gen (q 0 1) (q 1 1) (ex9_harm (q 0 1) (q 0 1) (q 0 1) (q 0 1)).
+Fixpoint cqlist_sum_eqb (l la lb : list (Qc * CQ)) : bool :=
+  match l, la, lb with
+  | [], [], [] => true
+  | (w, x) :: r, (wa, xa) :: ra, (wb, xb) :: rb =>
+      Qc_eq_bool w wa && Qc_eq_bool w wb && feqb CQ x (fadd CQ xa xb) && cqlist_sum_eqb r ra rb
+  | _, _, _ => false
+  end.
+Example C09_example_superpose :
+  okb (q_fd_voltage (lbl "R2") ex9_cs ex9_wmax ex9_wres) (fun l =>
+  okb (q_fd_voltage (lbl "R2") ex9_A ex9_wmax ex9_wres) (fun la =>
+  okb (q_fd_voltage (lbl "R2") ex9_B ex9_wmax ex9_wres) (fun lb =>
+    cqlist_sum_eqb l la lb
+    && existsb (fun p => negb (feqb CQ (snd p) (f0 CQ))) la && existsb (fun p => negb (feqb CQ (snd p) (f0 CQ))) lb))) = true.
+Proof. vm_compute. reflexivity. Qed.
+
+(* the two-sided spectrum of the same series: frequencies -3 .. 3, and on the carrier above (which satisfies
+   E(-w) = conj E(w)) its sum is real and equal to the time function of the one-sided lines *)
+Example C09_example_carrier_mirror :
+  forallb (fun w => let c := ex9_carrier w in let c' := ex9_carrier (- w) in
+                    Qc_eq_bool (fst c') (fst c) && Qc_eq_bool (snd c') (- snd c)) (ex9_ws ++ map Qcopp ex9_ws) = true.
+Proof. vm_compute. reflexivity. Qed.
+Example C09_example_two_sided :
+  okb (q_fd_voltage (lbl "R2") ex9_cs ex9_wmax ex9_wres) (fun lines =>
+    let ts := @two_sided Qcops Qc_leb lines in
+    let sum := @sp_eval Qcops (fun w => ex9_carrier w : CQ) ts in
+    qlist_eqb (map fst ts) [q (-3) 1; q (-2) 1; q (-1) 1; q 0 1; q 1 1; q 2 1; q 3 1]
+    && Qc_eq_bool (fst sum) (@tf Qcops (map (fun p => ex9_carrier (fst p)) lines) (map snd lines))
+    && Qc_eq_bool (snd sum) 0
+    && negb (Qc_eq_bool (fst sum) 0)) = true.
+Proof. vm_compute. reflexivity. Qed.
+Example C09_example_two_nz : fadd Qcops (f1 Qcops) (f1 Qcops) <> f0 Qcops.
+Proof. intros E. assert (H : Qc_eq_bool (1 + 1) 0 = false) by (vm_compute; reflexivity). simpl in E. rewrite E in H.
+  vm_compute in H. discriminate. Qed.
+
+(* an ideal periodic voltage source (w0 = 1, harmonics 0..2 retained for w_max = 5/2) on a resistor: the voltage lines of
+   the source are its harmonic phasors a_n (cos p_n + j sin p_n); the frequencies meet the harmonic test of
+   C09_periodic_own_waveform *)
+Definition ex9_per : list qcomp := [
+  mkp KPerV "P" ["1"; "0"] [("wavetype", q 0 1); ("V", q 1 1); ("w", q 1 1); ("phi", q 0 1); ("R", q 0 1)]
+      [(0%Z, (q 1 2, (q 1 1, q 0 1))); (1%Z, (q 2 3, (q 0 1, q 1 1))); (2%Z, (q 1 3, (q 3 5, q 4 5)))];
+  mkc KResistor "R1" ["1"; "0"] [("R", q 2 1)];
+  mkc KGround "gnd" ["0"] [] ]%string.
+Example C09_example_periodic_own :
+  okb (q_fd_voltage (lbl "P") ex9_per (q 5 2) ex9_wres) (fun lines =>
+    qlist_eqb (map fst lines) [q 0 1; q 1 1; q 2 1]
+    && match map snd lines with
+       | [x0; x1; x2] => feqb CQ x0 (cq 1 2 0 1) && feqb CQ x1 (cq 0 1 2 3) && feqb CQ x2 (cq 1 5 4 15)
+       | _ => false end)
+  && forallb (fun n => Z.eqb (Qc_round (Qc_ofZ n / q 1 1)) n
+                       && Qc_leb (rabs Qcops Qc_leb (Qc_ofZ n / q 1 1 - Qc_ofZ n)) (ex9_wres / q 1 1)) [0%Z; 1%Z; 2%Z] = true.
+Proof. vm_compute. reflexivity. Qed.
